@@ -684,6 +684,50 @@ RUNNERS = {"apply_edits_argument": run_apply_edits_argument, "group_same_name": 
 	"group_reduce": run_group_reduce, "na": run_na}
 RUNNERS["recompute"] = recompute.runner("C06")
 
+
+def run_nothing_left(chk, spec):
+	"""a column that is TYPED (it held values once, or is a selection of a typed column) but holds nothing except None - or nothing at all: skipping None leaves nothing, so min / max
+	have no value to return: they raise or answer None, never a value that is in no cell; sum is 0, mean and stdev are None, any is False, all is True"""
+	import warnings
+	from datetime import date
+	src = {"bool": [True, False, True], "int": [3, 1, 2], "float": [1.5, 0.5, 2.5], "str": ["b", "a", "c"], "date": [date(2020, 1, 2), date(2020, 1, 1), date(2020, 1, 3)]}[spec["kind"]]
+	with warnings.catch_warnings():
+		warnings.simplefilter("ignore")
+		how = spec["how"]
+		if how == "overwritten":
+			v = Vector(list(src))
+			for i in range(len(src)):
+				v[i] = None
+		elif how == "slice-assigned":
+			v = Vector(list(src))
+			v[0:3] = [None, None, None]
+		elif how == "table-column":
+			t = Table({"ok": list(src), "n": [1, 2, 3]})
+			t[:, "ok"] = [None, None, None]
+			v = t["ok"]
+		elif how == "selection-of-nones":
+			v = Vector([src[0], None, None])[1:]
+		elif how == "mask-of-isna":
+			w = Vector([src[0], None, src[1], None])
+			v = w[w.isna()]
+		elif how == "empty-slice":
+			v = Vector(list(src))[0:0]
+		else:
+			v = Vector([src[0], None])[1:].dropna()
+		o = call(getattr(v, spec["red"]))
+	chk.judged("reduce", ("nothing-left", spec["kind"], how, spec["red"]))
+	red = spec["red"]
+	if red in ("min", "max"):
+		if o.ok and o.value is not None:
+			chk.fail("None is skipped by every reduction", f"reduce/value-from-nowhere/{red}/nothing-left", f"{spec!r}: {red}() of {list(v._underlying)!r} typed {v.schema()!r} returned {o.value!r}, which is in no cell")
+	elif o.ok:
+		exp = {"sum": (0,), "mean": (None,), "stdev": (None,), "any": (False,), "all": (True,)}[red]
+		if not any(M.same(o.value, e) or (e == 0 and o.value == 0) for e in exp) and not (red == "sum" and spec["kind"] in ("str", "date")):
+			chk.fail("None is skipped by every reduction", f"reduce/nothing-left/{red}", f"{spec!r}: {red}() of {list(v._underlying)!r} returned {o.value!r}")
+
+
+RUNNERS["nothing_left"] = run_nothing_left
+
 WIDER = {"int": 2.5, "float": 1 + 1j, "date": V.DT0}
 
 
@@ -812,6 +856,12 @@ def run(chk):
 			chk.case("reduce", {"values": vals, "red": red, "kind": kind, "mask": mask_sig([x is None for x in vals])}, "reduce-falsy")
 		chk.case("na", {"values": vals, "fill": rng.choice(dom), "fillclass": "same" if any(x is not None for x in vals) else "into-all-none",
 			"kind": kind, "mask": mask_sig([x is None for x in vals]), "name": None}, "na-falsy")
+	for kind in ("bool", "int", "float", "str", "date"):
+		for how in ("overwritten", "slice-assigned", "table-column", "selection-of-nones", "mask-of-isna", "empty-slice", "dropna-of-nones"):
+			for red in ("min", "max", "sum", "mean", "any", "all"):
+				if red in ("mean",) and kind in ("str", "date", "bool") or red in ("any", "all") and kind in ("str", "date"):
+					continue
+				chk.case("nothing_left", {"kind": kind, "how": how, "red": red}, "reduce-nothing-left")
 	# nothing to mark, drop or fill: an empty vector - typed or never typed - answers all three alike
 	for fill in (0, "x", 2.5, None):
 		chk.case("na", {"values": [], "fill": fill, "fillclass": "same" if fill is not None else "none", "kind": "empty-untyped", "mask": "", "name": None, "build": "direct"}, "na-empty")
